@@ -12,7 +12,7 @@ from props.C06 import describe, rules
 REQUIRED_THEOREMS = ['Usid.C12.cell_exact', 'Usid.C12.group_sizes', 'Usid.C12.reduced_anc_all_removed',
                      'Usid.C12.reduced_anc_keeps_labels', 'Usid.C12.memory_rejects', 'Usid.C12.file_form',
                      'Usid.C12.file_form_pos_reduced', 'Usid.C12.file_form_spec_reduced', 'Usid.C12.file_cells_exact']
-RULE = ('[also: main dtypes f8/f4/i4, dims as list / tuple / bare string, dset_name, a repeated to_hdf5 call; units, quantity, placeholder side and the array returned by the to_hdf5 call observed] generator datasets (1-3 dimensions per side, sizes 1-4, any storage order, integer-valued data; a quarter with a '
+RULE = ('[also: reference values stored in double precision that single precision cannot represent, compared bit for bit in the written dataset] [also: main dtypes f8/f4/i4, dims as list / tuple / bare string, dset_name, a repeated to_hdf5 call; units, quantity, placeholder side and the array returned by the to_hdf5 call observed] generator datasets (1-3 dimensions per side, sizes 1-4, any storage order, integer-valued data; a quarter with a '
         'dimension whose reference values are NOT distinct - elements are identified by their indices, values checked separately) x non-empty subsets '
         'of their dimensions (thorough: EVERY non-empty subset) x {mean, sum, max, min, std} x the wrapper\'s view (file order, '
         'sorted at construction, toggled once or twice); in-memory result compared '
@@ -51,6 +51,10 @@ def generate(seed, tier):
                       # `dims` handed over as a bare string / tuple; dset_name; the call repeated
                       'dims_as': rng.choice(['list', 'list', 'tuple', 'str'] if len(dims) == 1 else ['list', 'list', 'tuple']),
                       'dset_name': rng.choice([None, None, None, 'red']), 'twice': rng.random() < 0.15})
+    # reference values stored in double precision that single precision cannot hold (q/4 + 0.1)
+    for k, c in enumerate(cases):
+        if derived_rng(seed, 'C12v', k).random() < 0.35:
+            c['ds'] = dict(c['ds'], val_dtype='f8')
     return cases
 
 
@@ -105,6 +109,22 @@ def _coord_map(f, h5):
     return cells, table, pl, sl, pi, pv, si, sv
 
 
+def _exact_values(f, h5):
+    """{label: {index: bit-exact reference values seen at that index}} plus the element types of the two Values matrices"""
+    pi, pv = f[h5.attrs['Position_Indices']], f[h5.attrs['Position_Values']]
+    si, sv = f[h5.attrs['Spectroscopic_Indices']], f[h5.attrs['Spectroscopic_Values']]
+    out = {}
+    for inds, vals, labels in ((np.asarray(pi[()]), np.asarray(pv[()]), pv.attrs['labels']),
+                               (np.asarray(si[()]).T, np.asarray(sv[()]).T, sv.attrs['labels'])):
+        for d, l in enumerate(labels):
+            l = l.decode() if isinstance(l, bytes) else str(l)
+            t = {}
+            for r in range(inds.shape[0]):
+                t.setdefault(str(int(inds[r, d])), set()).add(float(vals[r, d]).hex())
+            out[l] = {k: sorted(v) for k, v in t.items()}
+    return out, [str(pv.dtype), str(sv.dtype)]
+
+
 def run_impl(inp, work):
     from pyUSID import USIDataset
     ds = inp['ds']
@@ -150,6 +170,8 @@ def run_impl(inp, work):
                                'placeholder': {'pos': [np.asarray(pi[()]).tolist(), np.asarray(pv[()]).tolist()],
                                                'spec': [np.asarray(si[()]).tolist(), np.asarray(sv[()]).tolist()]},
                                'quantity': [str(h5n.attrs.get('quantity')), str(f['G/main'].attrs.get('quantity'))]}
+                out['file']['exact'], out['file']['val_dtypes'] = _exact_values(f, h5n)
+                out['src_exact'], out['src_val_dtypes'] = _exact_values(f, f['G/main'])
                 if inp.get('twice'):
                     r2 = call(u.reduce, dims_arg, ufunc=ufunc, to_hdf5=True, **kwn)
                     if r2[0] == 'err':
@@ -239,6 +261,14 @@ def oracle(inp, obs):
                     if fl.get('table', {}).get(l) != want_t:
                         fails.append('file-unit-values: dimension %s of the written dataset carries %s, original reference '
                                      'values %s' % (l, fl.get('table', {}).get(l), want_t))
+        # ... bit for bit, in the source's element type (the reference values are not recomputed, they are carried over)
+        if 'exact' in fl:
+            for l in remaining:
+                if l in fl['exact'] and fl['exact'][l] != obs['src_exact'].get(l):
+                    fails.append('file-unit-values-exact: the reference values of dimension %s in the written dataset are not '
+                                 'bit for bit those of the source (%s vs %s)'
+                                 % (l, list(fl['exact'][l].items())[:2], list(obs['src_exact'].get(l, {}).items())[:2]))
+                    break
         if 'mem_of_file_call' in obs and 'err' not in obs['mem'] and \
                 (obs['mem_of_file_call']['shape'] != obs['mem']['shape'] or
                  not all(_close(func, a, b) for a, b in zip(obs['mem_of_file_call']['flat'], obs['mem']['flat']))):
